@@ -164,6 +164,136 @@ def _replay_faithful(g, gsr0, trB, flB, m, kind, flags):
         return None
 
 
+# ---------------------------------------------------------------------------------------------------
+# threaded runtime (engine A)
+def _same(V, a, b):
+    """structural equality of observations that may contain proxies"""
+    from vlib.pysym import Sym, eq, is_num
+    import z3
+    if isinstance(a, Sym) or isinstance(b, Sym):
+        return [eq(a, b)]
+    if is_num(a) and is_num(b) and not isinstance(a, bool):
+        return [z3.BoolVal(abs(float(a) - float(b)) < 1e-9)]
+    if isinstance(a, (list, tuple)) and isinstance(b, (list, tuple)):
+        if len(a) != len(b):
+            return [z3.BoolVal(False)]
+        out = []
+        for x, y in zip(a, b):
+            out += _same(V, x, y)
+        return out
+    if isinstance(a, dict) and isinstance(b, dict):
+        if sorted(a.keys()) != sorted(b.keys()):
+            return [z3.BoolVal(False)]
+        out = []
+        for k in a:
+            out += _same(V, a[k], b[k])
+        return out
+    if hasattr(a, "entries") and hasattr(b, "entries"):
+        return _same(V, list(a.entries), list(b.entries))
+    if hasattr(a, "__dataclass_fields__") and hasattr(b, "__dataclass_fields__"):
+        out = []
+        for f in a.__dataclass_fields__:
+            out += _same(V, getattr(a, f), getattr(b, f))
+        return out
+    return [z3.BoolVal(a == b)]
+
+
+def _conj(V, xs):
+    import z3
+    from vlib.pysym import SymBool
+    if V.symbolic:
+        return SymBool(z3.And(*xs)) if xs else True
+    return all(z3.is_true(z3.simplify(x)) for x in xs)
+
+
+def scen_async_record(cfg):
+    from props import c04
+
+    flags, mr = cfg["record_setting"], cfg["max_records"]
+
+    def scenario(V):
+        node, rec, obs, inp = c04.build(V, cfg)
+        K = cfg["nticks"]
+        calls = node.node.step_calls
+        rs = node._record_steps
+        n_rec = min(K, mr)
+        faithful = []
+        for k in range(min(n_rec, len(rs), len(calls))):
+            r, ss = rs[k], calls[k]
+            faithful += _same(V, r.seq, k) + _same(V, r.ts_start, ss.ts) + _same(V, r.delay, node.delays[k]) + _same(V, r.ts_end, ss.ts + node.delays[k])
+            faithful += _same(V, r.rng, ss.rng if flags["rng"] else None)
+            faithful += _same(V, r.state, ss.state if flags["state"] else None)
+            faithful += _same(V, r.inputs, dict(ss.inputs) if flags["inputs"] else None)
+            faithful += _same(V, r.output, ("output", "n", k, k) if flags["output"] else None)
+            faithful += _same(V, r.eps, 0)
+        # the same episode with recording off
+        cfg_off = dict(cfg, record_setting=dict(rng=False, inputs=False, state=False, output=False), max_records=20000)
+        node2, rec2, obs2, inp2 = c04.build(V, cfg_off)
+        same = []
+        same += _same(V, [(int(s.seq), s.ts, s.state, s.rng, dict(s.inputs)) for s in calls], [(int(s.seq), s.ts, s.state, s.rng, dict(s.inputs)) for s in node2.node.step_calls])
+        same += _same(V, [(t.node.name if hasattr(t, "node") else "conn", n, [x for x in a if not hasattr(x, "__dataclass_fields__")] + [(x.eps, x.seq, x.ts) for x in a if hasattr(x, "__dataclass_fields__")]) for t, n, a in rec.tasks],
+                      [(t.node.name if hasattr(t, "node") else "conn", n, [x for x in a if not hasattr(x, "__dataclass_fields__")] + [(x.eps, x.seq, x.ts) for x in a if hasattr(x, "__dataclass_fields__")]) for t, n, a in rec2.tasks])
+        same += _same(V, [node._tick, node._phase_scheduled, list(node.q_ts_end_prev), int(node._step_state.seq), node._step_state.state],
+                      [node2._tick, node2._phase_scheduled, list(node2.q_ts_end_prev), int(node2._step_state.seq), node2._step_state.state])
+        return {
+            "record rows hold exactly the seq/times/rng/state/inputs the step was handed and the output it returned (None where a setting is off)": _conj(V, faithful) if len(rs) >= n_rec and len(calls) == K else False,
+            "at most max_records rows are kept, the oldest ones; the rest is counted as discarded": len(rs) == n_rec and node._discarded == max(0, K - mr) and [r.seq for r in rs] == list(range(n_rec)),
+            "recording settings / truncation change nothing but the record (steps handed, messages sent, timing state identical)": _conj(V, same),
+            "twin:something recorded": len(rs) >= 1,
+        }
+
+    return scenario
+
+
+def scen_async_getrecord(cfg):
+    """connection.get_record keeps exactly the messages consumed by steps that were executed (seq_in <= last executed seq), in order"""
+    from rex import base
+    from vlib import asyncsym
+
+    def scenario(V):
+        rec = asyncsym.Recorder()
+        snd = asyncsym.mk_node(V, rec, "snd", 20)
+        rcv = asyncsym.mk_node(V, rec, "rcv", 10)
+        c = asyncsym.mk_conn(V, rec, snd, rcv)
+        c._record = base.InputRecord(info=None, messages=None)
+        seq_in = cfg["seq_in"]
+        c._record_messages = [base.MessageRecord(seq_out=i, seq_in=s, ts_sent=0.01 * i, ts_recv=0.01 * i + 0.005, delay=0.005) for i, s in enumerate(seq_in)]
+        out = c.get_record(cfg["last"])
+        kept = [int(x) for x in out.messages.seq_out]
+        return {"get_record keeps exactly the messages of executed steps, in order": kept == [i for i, s in enumerate(seq_in) if s <= cfg["last"]]}
+
+    return scenario
+
+
+def worker_async(cfg, tier):
+    import rex.asynchronous as A
+    from props.c03 import _to_obs
+    from vlib import pysym
+
+    scen = scen_async_getrecord(cfg) if cfg.get("scen") == "getrecord" else scen_async_record(cfg)
+    res, stats = pysym.run_scenario(scen, [A], extra_patch={"rex.asynchronous": {"onp": pysym.FakeNumpy(A.onp)}})
+    keymap = {r["name"]: "async-record" for r in res}
+    whatmap = {r["name"]: f"threaded runtime: {r['name']} -- violated" for r in res}
+    obs, stats = _to_obs(res, stats, cfg, "async-record", keymap, whatmap)
+    if obs:
+        obs[0].detail = {"stats": stats}
+    return obs
+
+
+def async_configs(tier):
+    out = []
+    combos = [(True, True, True, True), (False, False, False, False), (True, False, True, False), (False, True, False, True)]
+    if tier == "thorough":
+        combos = list(itertools.product([False, True], repeat=4))
+    for fl in combos:
+        for mr in ((20000, 1) if tier == "quick" else (20000, 1, 2)):
+            for nb, nnb in (((1, 1),) if tier == "quick" else ((0, 0), (1, 0), (1, 1))):
+                out.append(dict(rate=10, scheduling="frequency", advance=False, n_blocking=nb, n_nonblocking=nnb, nticks=2 if tier == "quick" else 3, groups=True,
+                                record_setting=dict(zip(("rng", "inputs", "state", "output"), fl)), max_records=mr))
+    out += [dict(scen="getrecord", seq_in=[0, 0, 1, 2, 2, 3], last=1), dict(scen="getrecord", seq_in=[0, 1, 2], last=2), dict(scen="getrecord", seq_in=[0, 1, 2], last=0)]
+    return out
+
+
 def configs(tier):
     from vlib import cg
 
@@ -190,7 +320,14 @@ def run(rep):
     rep.bounds = dict(record_setting_combinations=len({c["flags"] for c in cfgs}), instances=len({str(c["inst"]) for c in cfgs}), runs=1)
     rep.assumptions = ["0 <= step <= max_steps-1 (the partitions rollout() executes; the last schedule row is only ever read, never run)", "schedule adequacy: executed steps of one node carry distinct in-range sequence numbers; "
                        "the supervisor's seq equals the partition index", "user step function deterministic (UF of its arguments)"]
-    rep.add_all(pmap("props.c13", "worker_compiled", cfgs, rep.tier))
+    obs = pmap("props.c13", "worker_compiled", cfgs, rep.tier)
+    import rex.asynchronous as A
+    rep.encode(A._AsyncNodeWrapper.push_phase_shift, A._AsyncNodeWrapper.push_step, A._AsyncConnectionWrapper.get_record)
+    acfg = async_configs(rep.tier)
+    rep.configs = cfgs + acfg
+    rep.stubs = ["threaded runtime: _submit -> recorder, node.step -> opaque stand-in, log -> no-op, numpy dtype promotion -> identity"]
+    obs += pmap("props.c13", "worker_async", acfg, rep.tier)
+    rep.add_all(obs)
 
 
 def replay(rp):
